@@ -222,7 +222,7 @@ class NDArrayImageStack(ImageStack[ScalarType]):
                 dtype_raw, np.floating
             ):
                 sclar_factor = UINT_MAX[np.dtype(dtype)]  # type: ignore
-                imgs = (sclar_factor * imgs).astype(dtype)
+                imgs = (np.float64(sclar_factor) * imgs).astype(dtype)
             else:
                 imgs = imgs.astype(dtype)
 
